@@ -24,7 +24,7 @@ CLAIMED = {
    note='m=4, 8 cone layouts, enumerated A patterns/drop masks with symbolic values. Outside: that the reduced solve is a solve of the hand-reduced problem (IPM).' + _TB, design="DESIGN.md §3 C09, §6"),
  "C10": dict(text=_KANI + 'Decides on the REAL generic equilibrate over GF(13), for all data (one Ruiz sweep quick, two thorough), that the factors applied to P,q,A,b are exactly the recorded d,e,c, that dinv,einv are their inverses and that E is constant over non-scalar cones; at f64 that disabling leaves the data untouched and - thorough tier only, 20-40 min each - that zero rows/columns stay unscaled and (data = powers of two over 24 orders of magnitude) the cumulative d,e,c stay within [min,max]; quick tier: every row and column factor of NON-SQUARE data is clipped into [min,max] (one sweep).',
    note='Outside: cumulative bounds for general significands (rounded products); PSD.' + _TB, design="DESIGN.md §3 C10, §6"),
- "C11": dict(text=_KANI + "Decides the KKT assembly: every P, A, diagonal, Hs-block and second-order-cone sparse-expansion (u, v, D) entry sits at its recorded position with the user's value, index sets are disjoint and cover K, in both triangles; that the dense/sparse SOC block written into K is the operator mul_Hs (GF(7)); and that regularise/refactor/restore keeps the engine's copy in sync and the solver's copy unregularised (mirror engine).",
+ "C11": dict(text=_KANI + "Decides the KKT assembly: every P, A, diagonal, Hs-block and second-order-cone sparse-expansion (u, v, D) entry sits at its recorded position with the user's value, index sets are disjoint and cover K, in both triangles; that the dense/sparse SOC block written into K is the operator mul_Hs (GF(7) dense, GF(17) sparse expansion), also after set_identity_scaling from arbitrary leftovers; and that regularise/refactor/restore keeps the engine's copy in sync and the solver's copy unregularised (mirror engine).",
    note='n=2; enumerated P patterns, A patterns and cone layouts incl. [SOC5], [SOC2,SOC5], symbolic values. Sparse layouts go through the hook assemble_kkt_matrix_soc_store (validated natively by tv_kkt). Outside: GenPow expansion; the real LDL engines.' + _TB, design="DESIGN.md §3 C11, §6"),
  "C12": dict(text=_KANI + "Decides the QDLDL unit chain: permutation validation/inversion, symmetric permutation map, elimination tree + factorisation (L D L' = A exactly over GF(13) for all values, Ok iff all leading minors nonzero), triangular solves, refactor = fresh factor, regularisation/inertia logic at f64, and - through the public QDLDLFactorisation API - that positive_inertia() is the number of positive pivots after new and after update_values + refactor.",
    note="n<=3 quick / n<=4 thorough; patterns enumerated, values/perms symbolic. Outside: backward stability, AMD." + _TB, design="DESIGN.md §3 C12, §6"),
